@@ -1,5 +1,9 @@
-"""Regenerates lean/U3.lean (imports every module under lean/U3) and lean/Main.lean (dispatch to
-every driver under lean/U3/Drive that carries a `-- driver: <name>` line).  Write-if-changed."""
+"""Regenerates, from the files present (write-if-changed):
+  lean/U3.lean            imports every module under lean/U3
+  lean/Mains/<drv>.lean   one tiny root per driver file under lean/U3/Drive carrying `-- driver: <drv>`
+  lean/lakefile.toml      one `lean_exe` `u3-<drv>` per driver
+One executable per driver, so that a property's check builds (and can be broken by) only the
+models it uses."""
 import os, re
 VERIF = os.path.dirname(os.path.dirname(os.path.abspath(__file__)))
 LEAN = os.path.join(VERIF, "lean")
@@ -7,30 +11,48 @@ LEAN = os.path.join(VERIF, "lean")
 def _write(path, text):
     old = open(path).read() if os.path.exists(path) else None
     if old != text:
+        os.makedirs(os.path.dirname(path), exist_ok=True)
         open(path, "w").write(text)
         return True
     return False
 
+def drivers():
+    out = []
+    d = os.path.join(LEAN, "U3", "Drive")
+    for f in sorted(os.listdir(d)) if os.path.isdir(d) else []:
+        if f.endswith(".lean"):
+            m = re.search(r"^-- driver: (\S+)", open(os.path.join(d, f)).read(), re.M)
+            if m:
+                out.append((m.group(1), "U3.Drive." + f[:-5]))
+    return sorted(out)
+
 def main():
-    mods, drivers = [], []
+    mods = []
     for root, _, fs in os.walk(os.path.join(LEAN, "U3")):
         for f in sorted(fs):
             if f.endswith(".lean"):
-                rel = os.path.relpath(os.path.join(root, f), LEAN)[:-5].replace(os.sep, ".")
-                mods.append(rel)
-                if rel.startswith("U3.Drive."):
-                    m = re.search(r"^-- driver: (\S+)", open(os.path.join(root, f)).read(), re.M)
-                    if m:
-                        drivers.append((m.group(1), rel))
-    mods.sort(); drivers.sort()
-    c1 = _write(os.path.join(LEAN, "U3.lean"), "".join(f"import {m}\n" for m in mods))
-    main_src = "".join(f"import {rel}\n" for _, rel in drivers)
-    main_src += "def main (args : List String) : IO UInt32 := do\n  match args with\n"
-    for name, rel in drivers:
-        main_src += f"  | [\"{name}\"] => {rel}.main; return 0\n"
-    main_src += "  | _ => IO.eprintln \"usage: u3model <model>\"; return 2\n"
-    c2 = _write(os.path.join(LEAN, "Main.lean"), main_src)
-    return c1 or c2
+                mods.append(os.path.relpath(os.path.join(root, f), LEAN)[:-5].replace(os.sep, "."))
+    mods.sort()
+    ch = _write(os.path.join(LEAN, "U3.lean"), "".join(f"import {m}\n" for m in mods))
+    drv = drivers()
+    lake = 'name = "U3"\nversion = "0.1.0"\ndefaultTargets = ["U3"]\n\n[[lean_lib]]\nname = "U3"\n'
+    keep = set()
+    for name, mod in drv:
+        fn = "M_" + re.sub(r"\W", "_", name)
+        keep.add(fn + ".lean")
+        ch |= _write(os.path.join(LEAN, "Mains", fn + ".lean"),
+                     f"import {mod}\ndef main : IO UInt32 := do\n  {mod}.main\n  return 0\n")
+        lake += f'\n[[lean_exe]]\nname = "u3-{name}"\nroot = "Mains.{fn}"\n'
+    md = os.path.join(LEAN, "Mains")
+    if os.path.isdir(md):
+        for f in os.listdir(md):
+            if f.endswith(".lean") and f not in keep:
+                os.unlink(os.path.join(md, f)); ch = True
+    ch |= _write(os.path.join(LEAN, "lakefile.toml"), lake)
+    old_main = os.path.join(LEAN, "Main.lean")
+    if os.path.exists(old_main):
+        os.unlink(old_main); ch = True
+    return ch
 
 if __name__ == "__main__":
     print(main())
